@@ -81,6 +81,9 @@ class StaticCheck(Check):
                 name = "PGMbig_e%d_r%d_%s" % (eps, er, route)
                 ms.append(ModelRun("PGMIndex.tla", pgm_cfg(work, name, 12, 8, eps, er, 12, route, c, PGM_INV), name, workers=4, timeout=3000, heap="8g",
                                    constants={"U": 12, "N": 8, "Eps": eps, "EpsRec": er, "Sentinel": 12, "RouteMode": route, "NChunks": c}))
+        # the arithmetic core of the +2 slack, for all naturals (Apalache / Z3)
+        ms.append(ApalacheRun("RangeLemma.tla", "Lemma", "RangeLemma (Apalache): lo <= r <= hi, width <= 2Eps+2, for all naturals"))
+        ms.append(ApalacheRun("RangeLemma.tla", "Strict", "RangeLemma (Apalache): r < hi for a present key, for all naturals"))
         for w in ("WitnessTwoLevels", "WitnessRoundDown", "WitnessExtra", "WitnessNoExtra"):
             ms.append(ModelRun("PGMIndex.tla", pgm_cfg(work, "W_" + w, 8, 6, 1, 1, 8, "linear", 1, [w]), "witness: " + w, workers=1, timeout=300, expect="violation:*"))
         return ms
